@@ -184,6 +184,7 @@ def exec (s : State) (args : List String) : State × List Event × String :=
       | none => (s, [], "none")
       | some tg => (s, [], renderMeta tg)
   | "own" :: _ => (s, [], "mon=ok")   -- object identity of what the cache stores and feeds vs the caller's notification: Go-side monitor
+  | "ra" :: _ => (s, [], "mon=ok")    -- Remove of a target vs its re-Add + update while the delete is being announced: Go-side monitor
   | "rr" :: _ => (s, [], "mon=ok")    -- Remove of a target while its Reset is being announced: judged by the Go-side monitor only
   | "par" :: _ => (s, [], "mon=ok")   -- parallel writers of one target beside the refresh: judged by the Go-side monitor only
   | _ => (s, [], "bad-op")
